@@ -17,22 +17,7 @@ fn fmt_stub(_: rstd::fmt::Arguments<'_>) -> String {
     String::new()
 }
 
-fn type_info_stub(
-    gc: &mut Gc,
-    _tag: Option<&InternedStr>,
-    _fields: Option<&[InternedStr]>,
-    _type_id: TypeId,
-    drop: unsafe fn(*mut ()),
-) -> *const TypeInfo {
-    let b: &'static mut ManuallyDrop<TypeInfo> = Box::leak(Box::new(ManuallyDrop::new(TypeInfo {
-        drop,
-        generation: gc.generation,
-        tag: None,
-        fields: FnvMap::default(),
-        fields_key: Arc::from(Vec::new()),
-    })));
-    &**b as *const TypeInfo
-}
+use super::__verif_common__vm_gc::type_info_stub;
 
 /// Harness-local heap object: two optional outgoing edges (the pattern of gc.rs's own tests).
 struct Node {
